@@ -150,10 +150,17 @@ def nf3 (pt : PText) (s : List Tok) : Bool :=
 def isLBrack : Tok → Bool | .ch 12 91 => true | _ => false
 def rBrack : Tok := .ch 12 93
 
+/-- the character `[` with any category code -/
+def isOpenAny : Tok → Bool
+  | .ch _ 91 => true
+  | _ => false
+
 /-- LaTeX optional argument: present iff the next non-blank token is `[`; then it is delimited by `]` -/
 def texOptional (dflt : List Tok) (s : List Tok) : Option (List Tok × List Tok) :=
   match skipBlanks s with
   | t :: ts => if isLBrack t then (texScan [rBrack] 0 ts).map fun r => (texStrip r.1, r.2)
+               -- a `[` of another category than 12 is not LaTeX's bracket but plasTeX takes it for one: outside the normal form
+               else if isOpenAny t then none
                else some (dflt, t :: ts)
   | [] => some (dflt, [])
 
@@ -318,6 +325,7 @@ def texExpand : Nat → Table → Name → List Tok → Except TErr (Option (Lis
 def texCsname : Nat → Table → List Nat → List Tok → Except TErr (Name × List Tok)
   | 0, _, _, _ => .error .fuel
   | fuel + 1, tbl, acc, inp =>
+    if inp.length > 4000 then .error .fuel else      -- the resource bound of `texRun`, also inside `\\csname`
     match inp with
     | [] => .error (.outside "missing \\endcsname")
     | .ch cat c :: rest =>
@@ -372,44 +380,80 @@ def digitsNat (ts : List Tok) : Option Nat :=
   | [.ch 12 c] => if 48 ≤ c ∧ c ≤ 57 then some (c - 48) else none
   | _ => none
 
+/-- the character `*` with any category code, or the control symbol `\*` (plasTeX's `readCharacter('*')` takes all
+    of them for the star of `\newcommand*`) -/
+def isStarAny : Tok → Bool
+  | .ch _ 42 => true
+  | .cs [42] => true
+  | _ => false
+
+/-- optional `*` (category 12) after `\newcommand`; `none` = a star of another kind: outside the normal form -/
+def skipStar (s : List Tok) : Option (List Tok) :=
+  match skipBlanks s with
+  | t :: r => if t = .ch 12 42 then some r else if isStarAny t then none else some (t :: r)
+  | [] => some []
+
+/-- the name argument must be exactly one control sequence (`\name` or `{\name}`) -/
+def csOnly : List Tok → Option Name
+  | [.cs n] => some n
+  | _ => none
+
+/-- optional `[n]`: (argument count, rest); `none` = not a single digit / unbalanced / a bracket of a foreign category -/
+def texReadCount (r1 : List Tok) : Option Nat × List Tok :=
+  match skipBlanks r1 with
+  | t :: ts =>
+    if isLBrack t then
+      (match texScan [rBrack] 0 ts with
+       | some (p, r) => (digitsNat p, r)
+       | none => (none, []))
+    else if isOpenAny t then (none, [])
+    else (some 0, t :: ts)
+  | [] => (some 0, [])
+
+/-- optional `[default]` (only for macros with at least one argument): (default with the braces of a one-group default
+    removed, rest); a rest `[]` makes the following body read fail -/
+def texReadDefault (nargs : Nat) (r2 : List Tok) : Option (List Tok) × List Tok :=
+  match skipBlanks r2 with
+  | t :: ts =>
+    if isLBrack t ∧ nargs ≥ 1 then
+      (match texScan [rBrack] 0 ts with
+       | some (p, r) => (some (texStrip p), r)
+       | none => (none, []))
+    else if isOpenAny t then (none, [])
+    else (none, t :: ts)
+  | [] => (none, [])
+
+/-- the replacement text: a balanced group with valid parameter references -/
+def texReadBody (nargs : Nat) (r3 : List Tok) : Option (List BItem × List Tok) :=
+  match skipBlanks r3 with
+  | b :: r4 =>
+    if b.isBg then
+      match texGroup 0 r4 with
+      | some (btoks, rest) => (parseBody nargs btoks).map fun body => (body, rest)
+      | none => none
+    else none
+  | [] => none
+
 /-- `\newcommand*{\name}[n][default]{body}` (LaTeX manual C.8.1) -/
 def texReadNewcommand (s : List Tok) : Except TErr (Name × TMeaning × List Tok) :=
-  let s := match skipBlanks s with | .ch 12 42 :: r => r | x => x
-  match texUndelimited s with
-  | some ([.cs n], r1) =>
-    -- optional `[n]`
-    let (nargs?, r2) : Option Nat × List Tok :=
-      match skipBlanks r1 with
-      | t :: ts => if isLBrack t then
-          (match texScan [rBrack] 0 ts with
-           | some (p, r) => (digitsNat p, r)
-           | none => (none, []))
-        else (some 0, t :: ts)
-      | [] => (some 0, [])
-    match nargs? with
-    | none => .error (.outside "bad argument count")
-    | some nargs =>
-      if !(nf3Optional r1) || !(nf3Optional r2) then .error (.outside "NF3: bracket inside a bracketed argument") else
-      let (opt, r3) : Option (List Tok) × List Tok :=
-        match skipBlanks r2 with
-        | t :: ts => if isLBrack t ∧ nargs ≥ 1 then
-            (match texScan [rBrack] 0 ts with
-             | some (p, r) => (some (texStrip p), r)
-             | none => (none, t :: ts))
-          else (none, t :: ts)
-        | [] => (none, [])
-      match skipBlanks r3 with
-      | b :: r4 =>
-        if b.isBg then
-          match texGroup 0 r4 with
-          | some (btoks, rest) =>
-            match parseBody nargs btoks with
-            | some body => .ok (n, .latex nargs opt body, rest)
-            | none => .error (.outside "bad parameter reference in the replacement text")
-          | none => .error (.outside "unbalanced replacement text")
-        else .error (.outside "\\newcommand body must be a group")
-      | [] => .error (.outside "\\newcommand without body")
-  | _ => .error (.outside "\\newcommand needs a control sequence")
+  match skipStar s with
+  | none => .error (.outside "a star of a foreign category")
+  | some s1 =>
+    match texUndelimited s1 with
+    | none => .error (.outside "\\newcommand needs a control sequence")
+    | some (toks, r1) =>
+      match csOnly toks with
+      | none => .error (.outside "\\newcommand needs a control sequence")
+      | some n =>
+        let c := texReadCount r1
+        match c.1 with
+        | none => .error (.outside "bad argument count")
+        | some nargs =>
+          if !(nf3Optional r1) || !(nf3Optional c.2) then .error (.outside "NF3: bracket inside a bracketed argument") else
+          let o := texReadDefault nargs c.2
+          match texReadBody nargs o.2 with
+          | some (body, rest) => .ok (n, .latex nargs o.1 body, rest)
+          | none => .error (.outside "bad or missing replacement text")
 
 /-- TeX's "optional equals": an `=` of category 12, then at most one blank -/
 def optEquals : List Tok → List Tok
@@ -483,14 +527,16 @@ def texRun (ok : Name → TMeaning → Bool) : Nat → TSt → Except TErr (List
         | .error e => .error e
         | .ok (nm, m, rest') =>
           if (st.cur.lookup nm).isSome then .error (.outside "\\newcommand of a defined name")
-          else texRun ok fuel (assignLocal nm m { st with input := rest' })
+          else if ok nm m then texRun ok fuel (assignLocal nm m { st with input := rest' })
+          else .error (.outside "definition outside the fragment under consideration")
       | some (.prim .renewcommand) =>
         match texReadNewcommand rest with
         | .error e => .error e
         | .ok (nm, m, rest') =>
           if (st.cur.lookup nm).isNone then .error (.outside "\\renewcommand of an undefined name")
           else if primBound st.cur nm then .error (.outside "redefinition of a primitive of the macro language")
-          else texRun ok fuel (assignLocal nm m { st with input := rest' })
+          else if ok nm m then texRun ok fuel (assignLocal nm m { st with input := rest' })
+          else .error (.outside "definition outside the fragment under consideration")
       | some (.prim .let_) =>
         match texReadLet rest with
         | some (nm, .cs src, rest') =>
@@ -509,5 +555,34 @@ def texRun (ok : Name → TMeaning → Bool) : Nat → TSt → Except TErr (List
 
 /-- the whole macro language: no restriction on definitions -/
 def texProgram (fuel : Nat) (p : List Tok) : Except TErr (List Nat) := texRun (fun _ _ => true) fuel ⟨p, primTable, []⟩
+
+/-! ## the fragment for which program-level equality with the model is proved (`Properties/C02.lean`) -/
+
+def nm (s : String) : Name := s.toList.map Char.toNat
+
+def bgroupN : Name := [98, 103, 114, 111, 117, 112]
+def egroupN : Name := [101, 103, 114, 111, 117, 112]
+def eqN : Name := [61]
+def starN : Name := [42]
+
+/-- names that a program of the proved fragment never defines: the classes behind the brace characters, the two
+    control symbols plasTeX's argument readers confuse with `=` and `*`, and the primitives plasTeX knows under names
+    the macro language of the Spec does not have -/
+def reservedNames : List Name := [bgroupN, egroupN, eqN, starN, nm "edef", nm "xdef", nm "providecommand"]
+
+/-- the control sequence `\ifx` -/
+def texIsIfx : Tok → Bool
+  | .cs n => n == [105, 102, 120]
+  | _ => false
+def itemNoIfx : BItem → Bool | .tok t => !texIsIfx t | _ => true
+
+/-- the proved fragment: the definitions a run may make (see `run_eq_texRun_fragment`, `run_eq_texRun_language_partial`) -/
+def fragOk (n : Name) (m : TMeaning) : Bool :=
+  !reservedNames.contains n &&
+  match m with
+  | .macro _ items => items.all itemNoIfx
+  | .prim _ => true
+  | .latex _ _ items => items.all itemNoIfx
+
 
 end PlasVerif.Spec.TeXMacro
